@@ -1,7 +1,7 @@
 (* Correspondence obligations for C07: the model's Equals answers, hash keys, Hash.Get results and
    Unique results on the values the implementation ran (harness/cmd/c07). *)
 From Coq Require Import ZArith NArith Bool List.
-From PcoreV Require Import Model.Base Model.Keys Model.KeysIndex.
+From PcoreV Require Import Model.Base Model.Keys Model.KeysIndex Model.KeysCache.
 Import ListNotations.
 
 (* the positions j with x.Equals(pool[j]) *)
@@ -87,3 +87,22 @@ Definition c07_from_array_check (c : from_array_case) : bool :=
       end
   end.
 Definition c07_from_array_mismatches (cs : list from_array_case) : list N := failing c07_from_array_check cs.
+
+(* ------------------------------------------------------------------------------------------ *)
+(* the lazily cached inferred types (Model/KeysCache.v).
+   A case: the two operands as object graphs, every Array and Hash node with the content of its fields
+   reducedType / detailedType as read from the implementation's objects at the time of the call (after the
+   harness had filled the caches of the receiver, the argument or both in one of several ways);
+   the observed x.Equals(y); the observed px.ToKey of both (None: InvalidHashKey). *)
+Definition cache_case : Type := cval * cval * bool * option (list N) * option (list N).
+
+Definition cto_key (x : cval) : option (list N) := if keyable (erase x) then Some (ckey x) else None.
+
+Definition c07_cache_check (c : cache_case) : bool :=
+  match c with
+  | (x, y, e, kx, ky) =>
+      cwf x && cwf y && wf_value (erase x) && wf_value (erase y)
+      && Bool.eqb (cveq x y) e
+      && option_eqb str_eqb (cto_key x) kx && option_eqb str_eqb (cto_key y) ky
+  end.
+Definition c07_cache_mismatches (cs : list cache_case) : list N := failing c07_cache_check cs.
